@@ -6,6 +6,7 @@ import math
 
 FLOAT_FIELDS = {"crit", "viol", "vb", "obj", "obj_lb", "bobj", "bobj_lb", "val", "obj_lo", "obj_hi",
                 "tol", "viol_lo", "viol_hi", "a", "b", "lo", "hi", "x", "x_lo", "x_hi"}
+INT_OVERRIDE = {"ok", "when"}
 FLOAT_LISTS = {"objs", "xs"}
 DROP_FIELDS = {"delta", "msg", "vfeat", "vint"}
 
